@@ -12,7 +12,7 @@ def setup():
 
 def run(ctx):
     quick = ctx.tier == "quick"
-    n = 3000 if quick else 60000
+    n = 3000 if quick else 30000
     incr.run_incremental(ctx, "C01", n, size_range=(3, 9) if quick else (3, 14))
     # restat / order-only focused family
     incr.run_incremental(ctx, "C01", n // 3, salt=1, size_range=(3, 7),
@@ -31,6 +31,7 @@ def run(ctx):
                          change_kinds=["touch", "touch", "touch", "edit", "edit_hdr"], nchg_choices=(1, 2, 2, 3),
                          allow_faults=False, allow_interrupt=False, allow_edit_running=False)
     incr.run_dd_restat(ctx, "C01", n // 10)
+    incr.run_dd_deps(ctx, "C01", n // 8)
     incr.run_late_deps(ctx, "C01", n // 6)
     # self-regenerating manifests: build.ninja is a generator output selected by a config file
     incr.run_regen(ctx, "C01", n // 10, size_range=(2, 6))
